@@ -1,5 +1,5 @@
 (* C18 — proofs about Model/Authority.v *)
-From RipV Require Import Base.Prelude Model.Authority.
+From RipV Require Import Base.Prelude Model.Authority Proofs.AuthorityInv.
 
 (* ------------------------------------------------------------------ witnesses (refutations) *)
 Definition two_servers : list proc := [fresh 1 DServer; fresh 2 DServer].
@@ -63,3 +63,87 @@ Lemma corrupt_cleanup_needs_grace :
   exists sched : list event,
     holders (run false empty_init sched) = [1; 2] /\ holders (run true empty_init sched) = [1].
 Proof. exists grace_sched. vm_compute. split; reflexivity. Qed.
+
+(* ------------------------------------------------------------------ the hypotheses of the positive theorems are satisfiable *)
+Lemma two_servers_ok l m :
+  (forall p, lock_pid l = Some p -> p = 900) -> (forall p, meta_pid m = Some p -> p = 900) ->
+  init_ok l m two_servers.
+Proof.
+  intros Hl Hm. split; [|split; [|split]].
+  - cbn. repeat constructor; cbn; intuition discriminate.
+  - intros q [<-|[<-|[]]]; left; [left|left]; reflexivity.
+  - intros p E A. rewrite (Hl p E) in A. vm_compute in A. discriminate.
+  - intros p E A. rewrite (Hm p E) in A. vm_compute in A. discriminate.
+Qed.
+
+Lemma s13_init_ok : init_ok (LRec 900) MAbsent two_servers.
+Proof. apply two_servers_ok; cbn; intros p E; inversion E; reflexivity. Qed.
+Lemma s13c_init_ok : init_ok (LRec 900) (MRec 900) two_servers.
+Proof. apply two_servers_ok; cbn; intros p E; inversion E; reflexivity. Qed.
+
+(* a serial recovery: server 1 breaks the dead lock, acquires, publishes meta and serves; then server 2 runs into the
+   live lock and gives up; then server 1 shuts down and... (no_overlap holds along the way) *)
+Definition serial_sched : list event := rep 16 0 0 ++ rep 8 1 0.
+Lemma serial_example :
+  init_ok (LRec 900) (MRec 900) two_servers
+  /\ no_overlap true s13c_init serial_sched = true
+  /\ holders (run true s13c_init serial_sched) = [1]
+  /\ s_lock (run true s13c_init serial_sched) = LRec 1 /\ s_meta (run true s13c_init serial_sched) = MRec 1.
+Proof. split; [exact s13c_init_ok|]. vm_compute. repeat split; reflexivity. Qed.
+
+(* both contenders are inside the cleanup at the same time, but the loser's rename comes before the winner's create:
+   still allowed by no_overlap, still one holder *)
+Definition interleaved_sched : list event := rep 6 0 0 ++ rep 6 1 0 ++ rep 1 0 0 ++ rep 1 1 0 ++ rep 12 0 0.
+Lemma interleaved_example :
+  no_overlap true s13_init interleaved_sched = true
+  /\ (length (holders (run true s13_init interleaved_sched)) <= 1)%nat.
+Proof. vm_compute. split; [reflexivity|]. repeat constructor. Qed.
+
+(* the three witnesses are exactly what the hypothesis excludes *)
+Lemma witnesses_overlap :
+  no_overlap true s13_init s13_sched = false /\ no_overlap true s13b_init s13b_sched = false
+  /\ no_overlap true s13c_init s13c_sched = false.
+Proof. vm_compute. repeat split; reflexivity. Qed.
+
+(* a live serving authority (pid 800) with two contenders: a well-formed leftover state *)
+Definition with_bystander : list proc := [serving 800; fresh 1 DServer; fresh 2 DClient].
+Lemma bystander_ok : init_ok (LRec 800) (MRec 800) with_bystander
+  /\ (forall p, lock_pid (LRec 800) = Some p -> pid_alive with_bystander p = true)
+  /\ (forall p, meta_pid (MRec 800) = Some p -> pid_alive with_bystander p = true).
+Proof.
+  split; [|split; cbn; intros p E; inversion E; subst; reflexivity].
+  split; [|split; [|split]].
+  - cbn. repeat constructor; cbn; intuition discriminate.
+  - intros q [<-|[<-|[<-|[]]]]; [right; split; reflexivity|left; left; reflexivity|left; right; reflexivity].
+  - cbn. intros p E _. inversion E; subst. left; reflexivity.
+  - cbn. intros p E _. inversion E; subst. left; reflexivity.
+Qed.
+
+Definition three_contenders : list proc := [fresh 1 DServer; fresh 2 DServer; fresh 3 DClient].
+Definition race_sched : list event :=
+  [Step 0 0; Step 1 0; Step 2 0; Step 0 0; Step 1 0; Step 2 0; Step 0 0; Step 1 0; Step 0 0; Step 2 0; Step 0 0; Step 1 0].
+Lemma no_leftovers_example :
+  contenders_ok three_contenders /\ crash_free race_sched = true
+  /\ holders (run true (init LAbsent MAbsent three_contenders) race_sched) = [1].
+Proof.
+  split; [|vm_compute; split; reflexivity].
+  split.
+  - cbn. repeat constructor; cbn; intuition discriminate.
+  - intros q [<-|[<-|[<-|[]]]]; [left|left|right]; reflexivity.
+Qed.
+
+(* the full statements (every schedule, every leftover state) and their refutation *)
+Definition mutex_all_schedules_full : Prop :=
+  forall l m ps es, init_ok l m ps -> (length (holders (run true (init l m ps) es)) <= 1)%nat.
+Lemma s13_not_le : (length (holders (run true (init (LRec 900%N) MAbsent two_servers) s13_sched)) <= 1)%nat -> False.
+Proof. intros X. vm_compute in X. lia. Qed.
+Lemma mutex_all_schedules_full_false : ~ mutex_all_schedules_full.
+Proof. intros H. exact (s13_not_le (H (LRec 900) MAbsent two_servers s13_sched s13_init_ok)). Qed.
+
+Definition live_files_never_taken_full : Prop :=
+  forall l m ps es, init_ok l m ps ->
+    s_took_lock (run true (init l m ps) es) = false /\ s_took_meta (run true (init l m ps) es) = false.
+Lemma s13_taken : s_took_lock (run true (init (LRec 900) MAbsent two_servers) s13_sched) = false /\ s_took_meta (run true (init (LRec 900) MAbsent two_servers) s13_sched) = false -> False.
+Proof. intros X. vm_compute in X. destruct X; discriminate. Qed.
+Lemma live_files_never_taken_full_false : ~ live_files_never_taken_full.
+Proof. intros H. exact (s13_taken (H (LRec 900) MAbsent two_servers s13_sched s13_init_ok)). Qed.
